@@ -176,6 +176,7 @@ def run(chk):
     index_space_rule(chk, by_norm, roots, ref)
     call_pairing_rule(chk, by_norm)
     line_table_rules(chk, by_norm)
+    operand_and_closure_rules(chk, by_norm, d['types'])
     # ---- R3 who-may-write
     n3 = 0
     for f in d['fns']:
@@ -274,6 +275,92 @@ def space_of(e, fn, spec, env, loop_binds, depth=0):
             return a | b
         return a or b
     return None
+
+
+def operand_and_closure_rules(chk, by_norm, types):
+    from sa.kinds import casts as K
+    chk.rule('C14-R8', 'operand width: no index or length is narrowed to a single byte in PyCodeGenerator without a mask or a dominating range test (operands above 255 are spread over '
+                       'EXTENDED_ARG prefixes by write_arg; a bare `idx as u8` compares or writes only the low byte); the line-table writers are covered by C14-R6')
+    chk.rule('C14-R9', 'closure agreement: the tuple given to MAKE_FUNCTION(closure) has one cell per free variable of the inner code object, in the order of its co_freevars — the '
+                       'LOAD_CLOSURE loop of enclose_vars iterates over (a collection derived from) `code.freevars` of its CodeObj argument, and BUILD_TUPLE takes that length')
+    chk.rule('C14-R10', 'a variable captured from a function further out than the enclosing one is passed through every function in between: when rec_search finds the name in an '
+                        'outer block it also records it as a free variable of the blocks it walked past')
+    n8 = 0
+    R6_FUNCS = {'PyCodeGenerator::push_lnotab_entry', 'PyCodeGenerator::extend_lnotab_line', 'PyCodeGenerator::push_lnotab'}
+    for nm, f in sorted(by_norm.items()):
+        if not nm.startswith('PyCodeGenerator::') or nm in R6_FUNCS:
+            continue
+        for n, frm, to, st, why in K.audit(f, types):
+            if to != 'u8':
+                continue
+            n8 += 1
+            if st == 'lossy':
+                chk.bad('C14-R8', nm, 'narrow:%s' % T.show(n['x'])[:30], '%s narrows `%s` (%s) to one byte: for a value above 255 only the low byte is compared / written, so another '
+                        'instruction or variable is hit' % (nm, T.show(n)[:40], frm), CODEGEN, n.get('l'))
+            else:
+                chk.ok('C14-R8', (nm, n.get('l'), st))
+    chk.analysed['casts to u8 in PyCodeGenerator'] = n8
+    # positive control: the audit must see the masked cast of rewrite_captured_fast or at least the opcode-enum casts exist
+    # ---- R9
+    enc = by_norm.get('PyCodeGenerator::enclose_vars')
+    if chk.need(enc is not None, 'PyCodeGenerator::enclose_vars not found'):
+        code_params = [p['n'] for p in (enc.get('params') or []) if p.get('k') == 'Bind' and 'CodeObj' in (types[p['t']] if isinstance(p.get('t'), int) else '')]
+        closures = [c for c in T.calls(enc['body']) if c.get('k') == 'MCall' and c['n'] == 'write_instr' and 'LOAD_CLOSURE' in T.show(c)]
+        chk.floor('LOAD_CLOSURE emissions in enclose_vars', len(closures), 1)
+        env = {}
+        for n in T.walk(enc['body']):
+            if n.get('k') == 'Let' and n.get('init') is not None and n['pat'].get('k') == 'Bind':
+                env[n['pat']['n']] = n['init']
+
+        def from_freevars(e, depth=0):
+            """does the collection expression derive from <CodeObj param>.freevars ?"""
+            if depth > 6:
+                return False
+            for x in T.walk(e):
+                if x.get('k') == 'Field' and x.get('n') == 'freevars' and T.peel(x['x']).get('k') == 'Local' and T.peel(x['x'])['n'] in code_params:
+                    return True
+            for x in T.walk(e):
+                if x.get('k') == 'Local' and x['n'] in env and x['n'] not in code_params:
+                    if from_freevars(env[x['n']], depth + 1):
+                        return True
+            return False
+        loops = []
+        for n, ctx in T.walk_ctx(enc['body']):
+            if n in closures or any(n is c for c in closures):
+                lp = [c for c in ctx if c[0] == 'loop']
+                loops.append(lp[-1][1] if lp else None)
+        for lp in loops:
+            src = None
+            if lp is not None:
+                # the desugared `for`: the iterator expression is the scrutinee of the match that wraps the loop; find it from the enclosing Match with src ForLoopDesugar
+                for m in T.walk(enc['body']):
+                    if m.get('k') == 'Match' and m.get('src') == 'ForLoopDesugar' and any(x is lp for x in T.walk(m)) and any(a for a in m['arms']):
+                        if m['x'] is not None and not any(x is lp for x in T.walk(m['x'])):
+                            src = m['x']
+            if src is not None and from_freevars(src):
+                chk.ok('C14-R9', 'domain', sample='enclose_vars: LOAD_CLOSURE for each of `%s` (derived from %s.freevars)' % (T.show(src)[:40], code_params[0] if code_params else '?'))
+            else:
+                chk.bad('C14-R9', 'PyCodeGenerator::enclose_vars', 'domain', 'the closure tuple is built by iterating over `%s`, not over the free variables of the inner code object: '
+                        'the inner function reads cell i as its i-th free variable, so `g() = a; k() = b` in one function makes k() return a'
+                        % (T.show(src)[:50] if src is not None else '?'), CODEGEN, enc['line'])
+        bt = [c for c in T.calls(enc['body']) if c.get('k') == 'MCall' and c['n'] == 'write_arg']
+        lens = [c for c in bt if any(x.get('k') == 'MCall' and x['n'] == 'len' for x in T.walk(c))]
+        good_len = [c for c in lens if from_freevars(c)]
+        if lens and len(good_len) == len(lens):
+            chk.ok('C14-R9', 'length')
+        elif lens:
+            chk.bad('C14-R9', 'PyCodeGenerator::enclose_vars', 'length', 'BUILD_TUPLE takes `%s`, not the number of captured free variables' % T.show(lens[0])[:50], CODEGEN, lens[0].get('l'))
+    # ---- R10
+    rs = by_norm.get('PyCodeGenerator::rec_search')
+    if chk.need(rs is not None, 'PyCodeGenerator::rec_search not found'):
+        cell_push = [c for c in T.calls(rs['body']) if c.get('k') == 'MCall' and c['n'] == 'push' and T.show(T.peel(c['r'])).endswith('cellvars')]
+        free_push = [c for c in T.calls(rs['body']) if c.get('k') == 'MCall' and c['n'] in ('push', 'insert') and T.show(T.peel(c['r'])).endswith('freevars')]
+        chk.floor('cellvars.push sites in rec_search', len(cell_push), 1)
+        if free_push:
+            chk.ok('C14-R10', 'pass-through')
+        else:
+            chk.bad('C14-R10', 'PyCodeGenerator::rec_search', 'pass-through', 'rec_search marks the variable as a cell of the block that defines it but never as a free variable of the '
+                    'blocks in between: a function nested two levels deep that captures it gets a closure tuple without that cell and the interpreter crashes', CODEGEN, rs['line'])
 
 
 def line_table_rules(chk, by_norm):
